@@ -2249,6 +2249,96 @@ def sec_normxy(R: Run, M):
     R.oracle(r == "ERR:AssertionError", "norm-xy-accepts-wrong-shape", {"out": "mismatched"}, r, trivial=True)
 
 
+def sec_int_types(R: Run, M):
+    """numeric-type axis of the integer helpers: align_down / align_up / align_up_pow2 / align_down_pow2 with numpy scalars
+    AND arrays of u1, u2, u4, u8, i1, i2, i4, i8 (values and every intermediate of today's formulas inside the type's range,
+    alignments incl. non powers of two): the result equals the Python-int answer or the call raises; scalars are also
+    compared with the Lean model on the ordinary `alup` / `aldown` / `up2` / `down2` lines."""
+    rng = R.rng
+    import warnings
+    dts = ["u1", "u2", "u4", "u8", "i1", "i2", "i4", "i8"]
+
+    def py_up(x, a):
+        return -((-x) // a) * a
+
+    def py_down(x, a):
+        return (x // a) * a
+
+    for dt in dts:
+        info = np.iinfo(dt)
+        for _ in range(R.pick(60, 600)):
+            a = rng.choice([1, 2, 3, 5, 6, 7, 10, 12, 16, 100, 127])
+            a = min(a, info.max // 2)
+            hi = int(info.max) - a
+            lo = int(info.min) + a if info.min < 0 else 0
+            x = rng.choice([0, 1, a - 1, a, a + 1, 10, hi, hi - 1, lo, rng.randint(lo, hi), rng.randint(lo, min(hi, 300))])
+            x = max(lo, min(hi, x))
+            xs = np.dtype(dt).type(x)
+            a_sp = rng.choice([a, np.dtype(dt).type(a)])
+            case = {"x": x, "align": a, "dtype": dt, "align_type": type(a_sp).__name__}
+            for fn, want, op in ((M.align_up, py_up(x, a), "alup"), (M.align_down, py_down(x, a), "aldown")):
+                with warnings.catch_warnings():
+                    warnings.simplefilter("error")
+                    o = R.corr(f"c20 {op} {x} {a}", lambda: str(int(fn(xs, a_sp))), sig=f"int-types|{op}|{dt}")
+                R.oracle(o.startswith("ERR:") or int(o) == want, "align-numpy-integer-differs-from-python-int", dict(case, fn=op),
+                         f"{fn.__name__}(np.{dt}({x}), {a_sp!r}) = {o}, Python ints give {want}", sig=f"int-types|{op}|{dt}")
+            if x >= 1:
+                for fn, op in ((M.align_up_pow2, "up2"), (M.align_down_pow2, "down2")):
+                    o = R.corr(f"c20 {op} {x}", lambda: str(int(fn(xs))), sig=f"int-types|{op}|{dt}")
+                    want = (1 << (x - 1).bit_length()) if op == "up2" else (1 << (x.bit_length() - 1))
+                    R.oracle(o.startswith("ERR:") or int(o) == want, "align-numpy-integer-differs-from-python-int", dict(case, fn=op),
+                             f"{fn.__name__}(np.{dt}({x})) = {o}, Python ints give {want}", sig=f"int-types|{op}|{dt}")
+        # arrays (element-wise use of the same formulas)
+        for _ in range(R.pick(6, 60)):
+            a = min(rng.choice([3, 5, 6, 7, 10, 12, 16, 100]), info.max // 2)
+            hi = int(info.max) - a
+            lo = int(info.min) + a if info.min < 0 else 0
+            vals = [max(lo, min(hi, v)) for v in [0, 1, a, a + 1, 10, hi, lo] + [rng.randint(lo, hi) for _ in range(9)]]
+            arr = np.asarray(vals, dtype=dt)
+            for fn, py in ((M.align_up, py_up), (M.align_down, py_down)):
+                try:
+                    with warnings.catch_warnings():
+                        warnings.simplefilter("error")
+                        got = [int(v) for v in np.asarray(fn(arr, a)).ravel()]
+                except Exception:  # pylint: disable=broad-except
+                    R.count(f"int-types:array-call-raises|{dt}")
+                    continue
+                want = [py(v, a) for v in vals]
+                R.oracle(got == want, "align-numpy-integer-differs-from-python-int", {"fn": fn.__name__, "dtype": dt, "align": a, "values": vals},
+                         f"{fn.__name__}(array[{dt}] {vals}, {a}) = {got}, Python ints give {want}", sig=f"int-types|array|{dt}")
+
+
+def sec_rws_small(R: Run, M, Affine):
+    """decompose_rws on fine grids: pixel sizes 1e-3 .. 1e-7 with rotation / shear terms 1e-6 .. 1e-14 of the scale (so small in
+    ABSOLUTE terms that an absolute tolerance mistakes them for zero): the reconstruction R*W*S = A, orthonormal R, unit
+    upper W, diagonal S are judged RELATIVE to the matrix scale, and the Affine calling form must agree with the ndarray
+    form (also relative)."""
+    rng = R.rng
+    REL = F(1, 10**11)
+    for _ in range(R.pick(600, 6000)):
+        s1 = rng.choice([-1, 1]) * 10.0 ** rng.uniform(-7, -3)
+        s2 = rng.choice([-1, 1]) * abs(s1) * rng.choice([1.0, 1.0, rng.uniform(0.5, 2.0)])
+        e1 = rng.choice([0.0, 1.0, -1.0]) * 10.0 ** rng.uniform(-14, -6)
+        e2 = rng.choice([0.0, 1.0, -1.0]) * 10.0 ** rng.uniform(-14, -6)
+        A = Affine(s1, abs(s1) * e1, rng.uniform(-180, 180), abs(s1) * e2, s2, rng.uniform(-90, 90))
+        case = {"A": aff_s(A), "floats": repr(tuple(A)[:6])}
+        try:
+            out = M.decompose_rws(A)
+            nd = M.decompose_rws(np.asarray([[A.a, A.b], [A.d, A.e]], dtype="float64"))
+        except Exception as ex:  # pylint: disable=broad-except
+            R.oracle(False, "decompose-rws-raises", case, f"{ex!r}")
+            continue
+        rws_oracle(R, A, out, REL)
+        sc = max(abs(A.a), abs(A.e))
+        ok = True
+        for Ma, Mn, scale in zip(out, nd, (1.0, 1.0, sc)):
+            ea = (Ma.a, Ma.b, Ma.d, Ma.e)
+            en = (Mn[0, 0], Mn[0, 1], Mn[1, 0], Mn[1, 1])
+            ok = ok and all(abs(F(float(x)) - F(float(y))) <= REL * F(scale) * 100 for x, y in zip(ea, en))
+        R.oracle(ok, "decompose-rws-affine-form-differs-from-ndarray-form", case,
+                 f"Affine form {[tuple(m)[:6] for m in out]} vs ndarray form {[m.tolist() for m in nd]}", sig="rws-small-forms")
+
+
 def sec_growth(R: Run, M, Affine):
     """split_translation; Poly2d.fit dispatch and design matrices (norm_xy and lstsq substituted from the harness so that the
     rows LAPACK receives are observable and exact)"""
@@ -2352,6 +2442,8 @@ def run(R: Run):
     sec_nonfinite(R, M, Affine)
     sec_seq(R, M)
     sec_normxy(R, M)
+    sec_int_types(R, M)
+    sec_rws_small(R, M, Affine)
     sec_growth(R, M, Affine)
     R.exhaustive = False
 
